@@ -99,8 +99,8 @@ def build(ctx):
 
 def sizes(ctx):
     if ctx.tier == "quick":
-        return {"lua_hist": 900, "maxops": 30, "lua_fn": 800, "programs": 130, "trigger": 10, "fn_programs": 12}
-    return {"lua_hist": 12000, "maxops": 200, "lua_fn": 20000, "programs": 2000, "trigger": 150, "fn_programs": 200}
+        return {"lua_hist": 900, "maxops": 30, "e2e_maxops": 30, "lua_fn": 800, "programs": 130, "trigger": 10, "fn_programs": 12}
+    return {"lua_hist": 8000, "maxops": 200, "e2e_maxops": 60, "lua_fn": 20000, "programs": 800, "trigger": 80, "fn_programs": 100}
 
 
 # ---- generation -------------------------------------------------------------------------------------------
@@ -337,7 +337,7 @@ def fn_programs(ctx, n, per=12):
 
 def e2e(ctx, dist, items=None):
     sz = sizes(ctx)
-    items = items or gen_e2e(ctx, sz["programs"], sz["maxops"], sz["trigger"])
+    items = items or gen_e2e(ctx, sz["programs"], sz["e2e_maxops"], sz["trigger"])
     runs = H.compile_run([hist_program(h) for h, _ in items], fuel=60000000 if ctx.tier != "quick" else 8000000)
     model = [H.decode_model(m) for m in H.model_lines(_m["exe"], [h.case_line() for h, _ in items])]
     known = open_known()
@@ -433,7 +433,7 @@ def search(ctx):
         if not _m.get("exe"):
             build(ctx)
         sz = sizes(ctx)
-        e2e(ctx, {}, gen_e2e(ctx, sz["programs"] * 2, sz["maxops"], sz["trigger"] * 2, salt="c18-search"))
+        e2e(ctx, {}, gen_e2e(ctx, sz["programs"] * 2, sz["e2e_maxops"], sz["trigger"] * 2, salt="c18-search"))
         fails = ctx.c18_failures
     if not fails:
         return None
